@@ -193,7 +193,24 @@ class Fn:
             b = nb
 
     def dominated_by(self, a):
-        return {b for b in self.idom() if self.dominates(a, b)}
+        """Blocks dominated by a (dominator-tree subtree)."""
+        if getattr(self, "_domkids", None) is None:
+            kids = {}
+            for b, d in self.idom().items():
+                if b != d:
+                    kids.setdefault(d, []).append(b)
+            self._domkids = kids
+        if a not in self.idom():
+            return set()
+        out = set()
+        stack = [a]
+        while stack:
+            x = stack.pop()
+            if x in out:
+                continue
+            out.add(x)
+            stack.extend(self._domkids.get(x, ()))
+        return out
 
     def reachable(self, start, avoid=()):
         """Blocks reachable from `start` (inclusive) without entering blocks in `avoid`."""
